@@ -91,6 +91,9 @@ def run(prog: Program, res: Result, tier: str) -> None:
     res.rule("R-DERIVE-PURE", "enantiomer() has no write effect on self")
     res.trusted += ["setter -> slot table (set_atom_stereo -> _atom_stereo, "
                     "...)", "sa/absint.py effect transfer functions"]
+    from .common import check_setter_once
+    check_setter_once(prog, res, chain_of(
+        prog, "StereoCondensedReactionGraph", "enantiomer"), "enantiomer()")
     for K in ("StereoMolGraph", "StereoCondensedReactionGraph"):
         chain = chain_of(prog, K, "enantiomer")
         if not chain:
